@@ -55,6 +55,14 @@ def run_case(case):
             run = harness.rewrite(run, later)
             obs['c16-identity-change-then-rewrite'] = obs.get('c16-identity-change-then-rewrite', 0) + 1
         evals += 1
+        if run.built is not None and run.built.error is None:
+            for op_, out_ in zip(sp['ops'], run.built.outcomes):
+                if op_.get('op') == 'nf_data' and out_[0] != 'ok' and op_.get('expect') != 'reject':
+                    # every payload of this workload is legitimate (bytes / bytearray / ASCII text for an object of the same
+                    # logical file): data that are refused do not come back at all
+                    vio.append({'prop': PROP, 'kind': 'valid-payload-refused', 'mech': 'payload-refused:' + out_[1],
+                                'detail': f'add_no_format_frame_data refused a {op_.get("as")} payload'
+                                          f'{" inside the high-compatibility context" if op_.get("in_hc") else ""}: {out_[1]}: {out_[2][:160]}'})
         if run.data is None:
             obs['write-raised:%s:%s' % (run.wout[1], run.wout[2][:50])] = obs.get('write-raised', 0) + 1
             # every specification of this workload is valid: payloads that cannot be written at all are not "exact, in order,
@@ -119,6 +127,12 @@ def run_case(case):
             if as_ == 'bytearray':
                 obs['c16-bytearray'] = obs.get('c16-bytearray', 0) + 1
             sp['ops'].append(gen.nf_data_op(first + r.randrange(nobj), pb, as_=as_))
+            if r.random() < 0.25:
+                # the data are added while the high-compatibility context is open (it restricts NAMES, not transported data)
+                sp['ops'][-1]['in_hc'] = True
+                obs['c16-added-inside-hc-context'] = obs.get('c16-added-inside-hc-context', 0) + 1
+                if as_ == 'str':
+                    obs['c16-text-added-inside-hc-context'] = obs.get('c16-text-added-inside-hc-context', 0) + 1
             if r.random() < 0.3:
                 # the payload put into the record's `data` attribute after the record has been created (documented route)
                 sp['ops'][-1]['via'] = 'data-attribute'
